@@ -110,6 +110,18 @@ def runOp (d : DState) (line : String) : DState :=
     let log := " ".intercalate (s1.log.reverse.filterMap showEvent)
     let grads := "GRADS " ++ showList (gradTrace c s1.log).2
     { d with s := s1, call := d.call + 1, out := grads :: ("LOG " ++ log) :: (s!"F agree={agree} " ++ dump s1) :: out }
+  | [op] =>
+    if op == "train" || op == "valid" then
+      -- an epoch run by hand: solver.run_train_epoch() / solver.run_valid_epoch()
+      let c := mkCfg d.nMetrics d.ov d.addl
+      let s0 := { d.s with log := [] }
+      let s1 := if op == "train" then trainEpoch c s0 else validEpoch c s0
+      let log := " ".intercalate (s1.log.reverse.filterMap showEvent)
+      { d with s := s1, out := ("LOG " ++ log) :: (s!"M {op} " ++ dump s1) :: d.out }
+    else if op == "evalsols" then
+      { d with out := ("EVAL " ++ " ".intercalate (d.sols.map fun o => match o with
+          | none => "x" | some sol => toString (evalθ d.s sol))) :: d.out }
+    else { d with out := ("bad-op " ++ line) :: d.out }
   | ["save", ok, k] =>
     let r := save (ok == "1") k.toNat! d.s
     { d with s := r.1, out := s!"SAVE wrote={r.2.isSome} {dump r.1}" :: d.out }
@@ -119,9 +131,6 @@ def runOp (d : DState) (line : String) : DState :=
   | ["getsol", cp, b] =>
     let r := getSolution (cp == "1") (b == "1") d.s
     { d with sols := d.sols ++ [r], out := (match r with | none => "SOL error" | some .live => "SOL live" | some (.frozen _) => "SOL frozen") :: d.out }
-  | ["evalsols"] =>
-    { d with out := ("EVAL " ++ " ".intercalate (d.sols.map fun o => match o with
-        | none => "x" | some sol => toString (evalθ d.s sol))) :: d.out }
   | "shape" :: n :: np :: nr :: dims =>
     let o := callShape n.toNat! (dims.map String.toNat!) (np == "1") (nr == "1")
     let str := match o with
